@@ -31,6 +31,7 @@ import (
 	"google.golang.org/protobuf/proto"
 
 	"github.com/obolnetwork/charon/app/eth2wrap"
+	"github.com/obolnetwork/charon/app/retry"
 	"github.com/obolnetwork/charon/core"
 	"github.com/obolnetwork/charon/core/aggsigdb"
 	"github.com/obolnetwork/charon/core/bcast"
@@ -220,6 +221,11 @@ type c01script struct {
 	MaxDev  int    `json:"max_deviations"`
 	Vals    int    `json:"validators,omitempty"`  // validators of the cluster attesting in the slot (0 = 1)
 	Att     string `json:"attestation,omitempty"` // "" = deneb with validator index; "electra-noidx" = electra without validator index (what peers on v1.3.0-v1.4.1 send)
+	// production wiring variants (app/app.go): AggDB "" = aggsigdb.NewMemDBV2 (feature AggSigDBV2), "v1" = aggsigdb.NewMemDB (the default);
+	// Wire "" = plain core.Wire, "retry" = core.WithAsyncRetry(retry.New(deadlineFunc)): fetch, participate, propose, parsigex
+	// broadcast and beacon-node broadcast run asynchronously and are retried until the duty's deadline, as in production
+	AggDB string `json:"aggsigdb,omitempty"`
+	Wire  string `json:"wire,omitempty"`
 }
 
 const (
@@ -571,13 +577,25 @@ func c01run(t *testing.T, sc c01script) (ex c01exec) {
 			if err != nil {
 				t.Fatal(err)
 			}
-			adb := aggsigdb.NewMemDBV2(core.NewDeadliner(nctx, "aggsigdb", deadlineFunc))
+			var adb interface {
+				core.AggSigDB
+				Run(context.Context)
+			}
+			if sc.AggDB == "v1" {
+				adb = aggsigdb.NewMemDB(core.NewDeadliner(nctx, "aggsigdb", deadlineFunc))
+			} else {
+				adb = aggsigdb.NewMemDBV2(core.NewDeadliner(nctx, "aggsigdb", deadlineFunc))
+			}
 			go adb.Run(nctx)
 			bc, err := bcast.New(nctx, c01bn{w.eth2, w, i})
 			if err != nil {
 				t.Fatal(err)
 			}
-			core.Wire(n, c01fetcher{n}, cons, ddb, c01vapi{n}, pdb, psx, agg, c01aggdb{adb, n}, c01bcast{n, bc})
+			var wopts []core.WireOption
+			if sc.Wire == "retry" {
+				wopts = append(wopts, core.WithAsyncRetry(retry.New[core.Duty](deadlineFunc)))
+			}
+			core.Wire(n, c01fetcher{n}, cons, ddb, c01vapi{n}, pdb, psx, agg, c01aggdb{adb, n}, c01bcast{n, bc}, wopts...)
 		}
 		// the duty is triggered on every node; its validator client starts waiting for the data to sign
 		start := func(n *c01node) {
@@ -892,7 +910,7 @@ func TestVerifC01(t *testing.T) {
 				an++
 			}
 		}
-		cls := fmt.Sprintf("n=%d:%s:v=%d%s:devs=%d:broadcasts=%d", sc.N, sc.Inputs, max(sc.Vals, 1), sc.Att, ex.devs, bn)
+		cls := fmt.Sprintf("n=%d:%s:v=%d%s%s%s:devs=%d:broadcasts=%d", sc.N, sc.Inputs, max(sc.Vals, 1), sc.Att, sc.AggDB, sc.Wire, ex.devs, bn)
 		r.Eval(cls)
 		r.Outcome(cls)
 		r.Steps(len(ex.steps))
@@ -931,14 +949,21 @@ func TestVerifC01(t *testing.T) {
 		maxDev int
 		vals   int
 		att    string
+		aggdb  string
+		wire   string
 	}
-	cfgs := []cfg{{4, "distinct", -1, 1, 1, ""}, {4, "leader-differs", 1, 1, 1, ""}, {3, "distinct", -1, 1, 1, ""}, {4, "equal", 0, 1, 1, ""},
+	cfgs := []cfg{{n: 4, inputs: "distinct", byz: -1, maxDev: 1, vals: 1}, {n: 4, inputs: "leader-differs", byz: 1, maxDev: 1, vals: 1}, {n: 3, inputs: "distinct", byz: -1, maxDev: 1, vals: 1}, {n: 4, inputs: "equal", byz: 0, maxDev: 1, vals: 1},
 		// two validators of the cluster attesting in the slot; electra attestations without validator index (all partial
 		// signatures come in the form peers on v1.3.0-v1.4.1 send, so that the broadcaster has to resolve the indices)
-		{4, "equal", 1, 1, 2, ""}, {4, "equal", -1, 1, 2, "electra-noidx"}, {4, "leader-differs", 2, 1, 2, "electra-noidx"}, {3, "distinct", -1, 1, 1, "electra-noidx"}}
+		{n: 4, inputs: "equal", byz: 1, maxDev: 1, vals: 2}, {n: 4, inputs: "equal", byz: -1, maxDev: 1, vals: 2, att: "electra-noidx"}, {n: 4, inputs: "leader-differs", byz: 2, maxDev: 1, vals: 2, att: "electra-noidx"}, {n: 3, inputs: "distinct", byz: -1, maxDev: 1, vals: 1, att: "electra-noidx"},
+		// the production default wiring: aggsigdb v1 and asynchronous, retried calls between the components
+		{n: 4, inputs: "distinct", byz: -1, maxDev: 1, vals: 1, aggdb: "v1", wire: "retry"}, {n: 4, inputs: "equal", byz: 1, maxDev: 1, vals: 2, aggdb: "v1", wire: "retry"},
+		{n: 3, inputs: "distinct", byz: -1, maxDev: 1, vals: 1, att: "electra-noidx", aggdb: "v1", wire: "retry"}, {n: 4, inputs: "leader-differs", byz: 2, maxDev: 1, vals: 1, wire: "retry"}}
 	if th {
-		cfgs = []cfg{{4, "distinct", -1, 2, 1, ""}, {4, "leader-differs", 1, 2, 1, ""}, {3, "distinct", -1, 2, 1, ""}, {4, "equal", 0, 2, 1, ""}, {4, "leader-differs", -1, 2, 1, ""}, {3, "leader-differs", -1, 3, 1, ""},
-			{4, "equal", 1, 2, 2, ""}, {4, "equal", -1, 2, 2, "electra-noidx"}, {4, "leader-differs", 2, 2, 2, "electra-noidx"}, {3, "distinct", -1, 2, 1, "electra-noidx"}, {4, "distinct", 0, 2, 2, "electra-noidx"}}
+		cfgs = []cfg{{n: 4, inputs: "distinct", byz: -1, maxDev: 2, vals: 1}, {n: 4, inputs: "leader-differs", byz: 1, maxDev: 2, vals: 1}, {n: 3, inputs: "distinct", byz: -1, maxDev: 2, vals: 1}, {n: 4, inputs: "equal", byz: 0, maxDev: 2, vals: 1}, {n: 4, inputs: "leader-differs", byz: -1, maxDev: 2, vals: 1}, {n: 3, inputs: "leader-differs", byz: -1, maxDev: 3, vals: 1},
+			{n: 4, inputs: "equal", byz: 1, maxDev: 2, vals: 2}, {n: 4, inputs: "equal", byz: -1, maxDev: 2, vals: 2, att: "electra-noidx"}, {n: 4, inputs: "leader-differs", byz: 2, maxDev: 2, vals: 2, att: "electra-noidx"}, {n: 3, inputs: "distinct", byz: -1, maxDev: 2, vals: 1, att: "electra-noidx"}, {n: 4, inputs: "distinct", byz: 0, maxDev: 2, vals: 2, att: "electra-noidx"},
+			{n: 4, inputs: "distinct", byz: -1, maxDev: 2, vals: 1, aggdb: "v1", wire: "retry"}, {n: 4, inputs: "equal", byz: 1, maxDev: 2, vals: 2, aggdb: "v1", wire: "retry"},
+			{n: 3, inputs: "distinct", byz: -1, maxDev: 2, vals: 1, att: "electra-noidx", aggdb: "v1", wire: "retry"}, {n: 4, inputs: "leader-differs", byz: 2, maxDev: 2, vals: 1, wire: "retry"}, {n: 4, inputs: "equal", byz: 0, maxDev: 2, vals: 1, aggdb: "v1"}}
 	}
 	sampled := 0
 	for _, c := range cfgs {
@@ -949,7 +974,7 @@ func TestVerifC01(t *testing.T) {
 			if r.Expired() {
 				return
 			}
-			sc := c01script{N: c.n, Inputs: c.inputs, Byz: c.byz, Choices: prefix, MaxDev: c.maxDev, Vals: c.vals, Att: c.att}
+			sc := c01script{N: c.n, Inputs: c.inputs, Byz: c.byz, Choices: prefix, MaxDev: c.maxDev, Vals: c.vals, Att: c.att, AggDB: c.aggdb, Wire: c.wire}
 			ex := judge(sc)
 			if sampled < 2 && devs == 1 {
 				sampled++
